@@ -1,0 +1,138 @@
+//go:build verif
+
+package gbn
+
+import "time"
+
+// This file is only compiled with the `verif` build tag. It adds read-only
+// accessors and thin wrappers around unexported types so that an external
+// monitoring harness can observe a connection's window bookkeeping. Nothing
+// here changes the behaviour of the package.
+
+// VerifConnState is a snapshot of the sender side bookkeeping of a GoBackNConn.
+type VerifConnState struct {
+	N                uint8
+	S                uint8
+	Base             uint8
+	Top              uint8
+	Size             uint8
+	ResendTimeout    time.Duration
+	HandshakeTimeout time.Duration
+	PingTime         time.Duration
+	PongTime         time.Duration
+}
+
+// VerifState returns a snapshot of the connection's window state. The queue
+// fields are read under the queue's own mutexes, in the same order that the
+// queue itself uses (base before top). It may only be called after the
+// constructor (NewClientConn / NewServerConn) has returned.
+func (g *GoBackNConn) VerifState() VerifConnState {
+	q := g.sendQueue
+
+	q.baseMtx.RLock()
+	q.topMtx.RLock()
+	base, top := q.sequenceBase, q.sequenceTop
+	q.topMtx.RUnlock()
+	q.baseMtx.RUnlock()
+
+	return VerifConnState{
+		N:                g.cfg.n,
+		S:                g.cfg.s,
+		Base:             base,
+		Top:              top,
+		Size:             q.size(),
+		ResendTimeout:    g.timeoutManager.GetResendTimeout(),
+		HandshakeTimeout: g.timeoutManager.GetHandshakeTimeout(),
+		PingTime:         g.timeoutManager.GetPingTime(),
+		PongTime:         g.timeoutManager.GetPongTime(),
+	}
+}
+
+// VerifQueueS returns the sequence space used by the connection's send queue
+// (as opposed to the one recorded in the config).
+func (g *GoBackNConn) VerifQueueS() uint8 {
+	return g.sendQueue.cfg.s
+}
+
+// VerifRecvSeq returns the next sequence number the receiver expects. It is
+// not synchronised and may only be called once the connection is closed (Close
+// has returned), when no internal goroutine is running any more.
+func (g *GoBackNConn) VerifRecvSeq() uint8 {
+	return g.recvSeq
+}
+
+// VerifDone returns a channel that is closed once Close has been initiated,
+// either by the application or by the connection itself.
+func (g *GoBackNConn) VerifDone() <-chan struct{} {
+	return g.quit
+}
+
+// VerifQueue wraps the real, unexported send queue for direct exercise of the
+// ACK / NACK window arithmetic.
+type VerifQueue struct {
+	q *queue
+}
+
+// VerifNewQueue creates a real queue with sequence space s. The queue has no
+// transport: resend must not be called on it.
+func VerifNewQueue(s uint8) *VerifQueue {
+	tm := NewTimeOutManager(nil)
+	q := newQueue(&queueCfg{
+		s: s,
+		sendPkt: func(packet *PacketData) error {
+			return nil
+		},
+	}, tm)
+
+	return &VerifQueue{q: q}
+}
+
+// Set forces the base and the top of the window.
+func (v *VerifQueue) Set(base, top uint8) {
+	v.q.baseMtx.Lock()
+	v.q.topMtx.Lock()
+	v.q.sequenceBase = base
+	v.q.sequenceTop = top
+	v.q.topMtx.Unlock()
+	v.q.baseMtx.Unlock()
+}
+
+// Add appends a packet using the real addPacket and returns the sequence
+// number it was given.
+func (v *VerifQueue) Add() uint8 {
+	p := &PacketData{}
+	v.q.addPacket(p)
+
+	return p.Seq
+}
+
+// ACK feeds an ACK to the real processACK.
+func (v *VerifQueue) ACK(seq uint8) bool {
+	return v.q.processACK(seq)
+}
+
+// NACK feeds a NACK to the real processNACK.
+func (v *VerifQueue) NACK(seq uint8) (bool, bool) {
+	return v.q.processNACK(seq)
+}
+
+// State returns base, top and size.
+func (v *VerifQueue) State() (uint8, uint8, uint8) {
+	v.q.baseMtx.RLock()
+	v.q.topMtx.RLock()
+	base, top := v.q.sequenceBase, v.q.sequenceTop
+	v.q.topMtx.RUnlock()
+	v.q.baseMtx.RUnlock()
+
+	return base, top, v.q.size()
+}
+
+// Stop releases the queue.
+func (v *VerifQueue) Stop() {
+	v.q.stop()
+}
+
+// VerifContainsSequence exposes containsSequence.
+func VerifContainsSequence(base, top, seq uint8) bool {
+	return containsSequence(base, top, seq)
+}
